@@ -11,6 +11,9 @@ CONSTANTS
   Dirs = {"w2r", "r2w"}
   Others = {"same", "none", "diff"}
   Astray = TRUE
+  Eps2 = {}
+  LooseList = FALSE
+  GenS = 0
   LooseKid = TRUE
   GenK = 0
   GenC = 6
